@@ -2,7 +2,7 @@
 names a page of its own is in one of the project lists from which Documentation.__init__ builds pages (read from its AST); anchors point to the
 page of a parent that has one."""
 from __future__ import annotations
-import ast
+import ast, os, re
 from bounded import realrun
 from harness import loader
 
@@ -224,6 +224,29 @@ def project_for(shape):
     for i in range(g("extra_files")):
         files[f"src/x{i}.c"] = "/*! doc */ int f(void){return 0;}\n"
     return files
+
+
+def static_pages_in_search_index():
+    """every static page that is written is in the search index under the address it is written at"""
+    from bounded import site
+    files = {"src/m.f90": "module m\n  !! module doc\nend module m\n", "pages/index.md": "---\ntitle: Guide\n---\n\nguidetext\n", "pages/install.md": "---\ntitle: Install\n---\n\ninstalltext\n",
+             "pages/advanced/index.md": "---\ntitle: Advanced\n---\n\nadvancedtext\n"}
+    with site.site(files, "src_dir: ./src\noutput_dir: ./doc\npage_dir: ./pages\nsearch: true\n") as (pd, status):
+        out = os.path.join(pd, "doc")
+        if not status.startswith("ok"):
+            return {"confirmed": True, "input": {"files": files}, "actual": status[:300], "expected": "FORD runs", "how": "full FORD run"}
+        problems, n = site.search_index_links(out)
+        text = ""
+        for name in ("search/search_database.json", "tipuesearch/tipuesearch_content.js"):
+            if os.path.exists(os.path.join(out, name)):
+                text += open(os.path.join(out, name), encoding="utf-8", errors="replace").read()
+        urls = set(re.findall(r'"(?:url|loc)"\s*:\s*"([^"]*)"', text))
+        written = sorted(os.path.relpath(os.path.join(d, f), out).replace(os.sep, "/") for d, _, ff in os.walk(os.path.join(out, "page")) for f in ff if f.endswith(".html"))
+        missing = [w for w in written if w not in urls]
+        if text and (problems or missing):
+            return {"confirmed": True, "input": {"files": files, "options": "page_dir, search: true"}, "actual": {"dangling": problems[:4], "static pages not in the index under their address": missing, "indexed": sorted(urls)[:12]},
+                    "expected": "page/index.html, page/install.html, page/advanced/index.html indexed; every indexed address exists", "how": "full FORD run; url fields of the search database against the files written"}
+    return None
 
 
 def replay_shape(shape, page):
